@@ -1,6 +1,9 @@
 import FqModel.Proto
 import FqModel.Bits
 import FqModel.Container
+import FqModel.Riff
+import FqModel.Gif
+import FqModel.Zip
 /-! driver for C15 (container decoders)
 
   `crc <table> <bits> <init> <hex data>` TAB `<hex of checksum.CRC.Sum after Write(data)>`
@@ -122,13 +125,14 @@ structure GzTruth where
   mdesc : String
   xfl : Nat
   os : Nat
+  hcrc : Option Bytes
   hlen : Nat
   clen : Nat
   data : Bytes
 
 def gzTruth (seg : Toks) : Option GzTruth := do
   pure { flg := ← kvNat seg "flg", name := ← kvHexOpt seg "name", comment := ← kvHexOpt seg "comment", extra := ← kvHexOpt seg "extra",
-         mtime := ← kvNat seg "mtime", mdesc := ← kvGet seg "mdesc", xfl := ← kvNat seg "xfl", os := ← kvNat seg "os", hlen := ← kvNat seg "hlen",
+         mtime := ← kvNat seg "mtime", mdesc := ← kvGet seg "mdesc", xfl := ← kvNat seg "xfl", os := ← kvNat seg "os", hcrc := ← kvHexOpt seg "hcrc", hlen := ← kvNat seg "hlen",
          clen := ← kvNat seg "clen", data := ← kvHex seg "data" }
 
 def gzHeaderToks (h : GzHeader) : Toks :=
@@ -165,9 +169,14 @@ def gzProp (ts : List GzTruth) (obs : Toks) : String :=
       | _ :: _, [] => some (i, "member missing")
       | t :: ts, (_, m) :: ms =>
         match m with
-        | [cm, _fl, _rs, mtime, mdesc, xfl, os, _xlen, extra, name, comment, _hcrc, "B", clen, crc, cd, isize, u] =>
+        | [cm, fl, rs, mtime, mdesc, xfl, os, xlen, extra, name, comment, hcrc, "B", clen, crc, cd, isize, u] =>
+          -- the five flags in the order fq prints them (text, header_crc, extra, name, comment), as RFC 1952 defines them
+          let wantFl := bit (t.flg.testBit 0) ++ bit (t.flg.testBit 1) ++ bit (t.flg.testBit 2) ++ bit (t.flg.testBit 3) ++ bit (t.flg.testBit 4)
           let bad :=
             if cm != "8" then "compression_method"
+            else if fl != wantFl || rs != "0" then s!"flags {fl} reserved {rs}, written {wantFl} reserved 0"
+            else if hcrc != optHex t.hcrc then "header_crc"
+            else if xlen != optNat (t.extra.map (·.length)) then "xlen"
             else if name != optHex t.name then "name"
             else if comment != optHex t.comment then "comment"
             else if extra != optHex t.extra then "extra"
@@ -523,6 +532,7 @@ structure ZipTruth where
   xt : String
   ext : String
   utf8 : String
+  clen : Nat
 
 /-- the MS-DOS time/date words and everything fq derives from them (zip.go:131-186), against the words the
     generator computed from the modification time it handed to the writer; sub-fields are split here -/
@@ -549,7 +559,8 @@ def zipExtraCheck (t : ZipTruth) (x : String) : String :=
 def zipTruth (seg : Toks) : Option ZipTruth := do
   pure { name := ← kvHex seg "name", method := ← kvNat seg "method", dd := (← kvNat seg "dd") == 1, fcomment := ← kvHexOpt seg "fcomment",
          off := ← kvNat seg "off", data := ← kvHex seg "data", fdate := ← kvNat seg "fdate", ftime := ← kvNat seg "ftime",
-         guess := ← kvGet seg "guess", gdesc := ← kvGet seg "gdesc", xt := ← kvGet seg "xt", ext := ← kvGet seg "ext", utf8 := ← kvGet seg "utf8" }
+         guess := ← kvGet seg "guess", gdesc := ← kvGet seg "gdesc", xt := ← kvGet seg "xt", ext := ← kvGet seg "ext", utf8 := ← kvGet seg "utf8",
+         clen := ← kvNat seg "clen" }
 
 def zipProp (file : Bytes) (truth : Toks) (ts : List ZipTruth) (obs : Toks) : String :=
   match obs with
@@ -626,6 +637,34 @@ def zipProp (file : Bytes) (truth : Toks) (ts : List ZipTruth) (obs : Toks) : St
           | _ => s!"PROPFAIL zip: local file {i}: shape"
       lf 0 ts ls
   | _ => "PROPFAIL zip: no projection"
+
+def zipDateToks (d : ZipDate) : Toks :=
+  ["T", toString d.ftime, toString d.fdate, toString d.second, toString (2 * d.second), toString d.minute, toString d.hour, toString d.day,
+   toString d.month, toString d.year, toString (1980 + d.year), toString d.guess, "?"]
+
+def zipExtraToks (xs : List ZipExtra) : Toks :=
+  ["X", if xs.isEmpty then "-" else ",".intercalate (xs.map fun x => s!"{x.tag}:{x.size}:{optNat x.mtime}")]
+
+def zipCDToks (c : ZipCD) : Toks :=
+  ["D", hexS c.name, toString c.method, bit c.dd ++ bit c.lang, toString c.crc, toString c.csize, toString c.usize, toString c.lfo,
+   hexS c.comment, toString c.extras.length, toString c.ext] ++ zipDateToks c.date ++ zipExtraToks c.extras
+
+def zipLocalToks (l : ZipLocal) : Toks :=
+  ["L", hexS l.name, toString l.method, bit l.dd ++ bit l.lang, toString l.crc, toString l.csize, toString l.usize, optHex l.uncompressed,
+   optNat l.compressedLen] ++
+  (match l.di with
+   | some d => ["1", optHex d.sig, toString d.crc, toString d.csize, toString d.usize]
+   | none => ["~", "~", "~", "~", "~"]) ++ zipDateToks l.date ++ zipExtraToks l.extras
+
+/-- the Lean parser on the same bytes; deflate results come from the ground truth (member offset -> compressed length, data) -/
+def zipModel (file : Bytes) (ts : List (Nat × Nat × Bytes)) : Toks :=
+  let inflate := fun (off : Nat) (_ : Bytes) => (ts.find? (·.1 == off)).map (fun t => (t.2.1, t.2.2))
+  match parseZip inflate file with
+  | .ok z =>
+    ["ok", "E", toString z.eocd.disk, toString z.eocd.nrDisk, toString z.eocd.nr, toString z.eocd.cdSize, toString z.eocd.cdOff, hexS z.eocd.comment,
+     toString z.cds.length] ++ z.cds.flatMap zipCDToks ++ [toString z.locals.length] ++ z.locals.flatMap zipLocalToks
+  | .err => ["err", "*"]
+  | .unsupported => ["*"]
 
 /-! ### gif (predicate only; `P` tokens = LZW expansion, by the harness with Go's compress/lzw, of the bytes fq reports) -/
 
@@ -714,7 +753,22 @@ def gifProp (truth obs : Toks) : String :=
     else r
   else r
 
-/-! ### wav (predicate only) -/
+def gifSubsToks (subs : List GifSub) : Toks := [toString subs.length, hexB (subs.flatMap (·.data))]
+
+def gifBlockToks : GifBlock → Toks
+  | .ext _ code subs => ["X", toString code] ++ gifSubsToks subs
+  | .image _ l t w h lcm il _ bd cs lmap subs =>
+    ["I", toString l, toString t, toString w, toString h, bit lcm, bit il, toString bd, toString cs, optHex lmap] ++ gifSubsToks subs ++ ["P", "?"]
+
+/-- the Lean parser's rendering of the file (the `P` token, the harness' LZW expansion, is not predicted) -/
+def gifModel (file : Bytes) : Toks :=
+  match parseGif file with
+  | some (g, _) =>
+    ["ok", hexS g.header, toString g.width, toString g.height, bit g.gcp, toString g.cres, toString g.zero, toString g.bd,
+     toString g.black, toString g.par, optHex g.gcm, toString g.blocks.length] ++ g.blocks.flatMap gifBlockToks ++ ["T", toString g.term]
+  | none => ["err", "*"]
+
+/-! ### wav -/
 
 /-- tokens of the chunk with the given id (hex) : everything between its "(" and the next "(" or ")" -/
 def wavChunk (obs : Toks) (idHex : String) : Option Toks :=
@@ -754,6 +808,23 @@ def wavProp (file : Bytes) (truth obs : Toks) : String :=
         | _, _ => "PROPFAIL wav: fmt/data chunk shape"
     | _, _, _ => "PROPFAIL wav: RIFF, fmt or data chunk missing"
   | _ => "PROPFAIL wav: no projection"
+
+def wavEvToks : WavEv → Toks
+  | .opn id size => ["(", hexS id, toString size]
+  | .riff f => ["R", hexS f]
+  | .list t => ["Y", hexS t]
+  | .fmt f => ["F", toString f.audioFormat, toString f.numChannels, toString f.sampleRate, toString f.byteRate, toString f.blockAlign,
+               toString f.bitsPerSample, optNat f.cbSize, optHex f.unknown, optNat f.extSize, optNat f.validBits, optNat f.chanMask, optHex f.subFormat]
+  | .samples d => ["S", hexB d]
+  | .fact n => ["A", toString n]
+  | .str v => ["V", hexS v]
+  | .raw d => ["D", hexB d]
+  | .close a => [")", optNat a]
+
+def wavModel (file : Bytes) : Toks :=
+  match parseWav file with
+  | some evs => "ok" :: evs.flatMap wavEvToks
+  | none => ["err", "*"]
 
 /-! ### bzip2 (predicate only; writer: the bzip2 program) -/
 
@@ -817,7 +888,7 @@ def stepCor (format : String) (file : Bytes) (cs obs : Toks) : String :=
           else if okSet.contains o then go cs os known
           else if format == "bzip2" && o == "N" then
             go cs os (known <|> some s!"KNOWN bzip2-decompress-error-ignored byte {p} altered: no error, no invalid, uncompressed absent")
-          else if k == "u" && (format == "zip" || format == "tar") && (o == "C=" || o == "C!") then
+          else if k == "u" && (format == "zip" || format == "tar" || format == "gzip") && (o == "C=" || o == "C!") then
             go cs os (known <|> some s!"KNOWN checksum-not-validated {format}: byte {p} altered, result clean ({o})")
           else s!"PROPFAIL {format}: byte {p} (kind {k}) altered inside a checksummed region, result {o} — clean"
     go cs obs none
@@ -841,10 +912,10 @@ def stepC15 (op obs : String) : String :=
       else if format == "zip" then
         let (pre, segs) := splitAt (· == "F") truth
         match segs.mapM (fun s => zipTruth s.2) with
-        | some ts => zipProp file pre ts o
+        | some ts => verdictWith (zipProp file pre ts o) (zipModel file (ts.map fun t => (t.off, t.clen, t.data))) o
         | none => "BADOP zip truth"
-      else if format == "gif" then gifProp truth o
-      else if format == "wav" then wavProp file truth o
+      else if format == "gif" then verdictWith (gifProp truth o) (gifModel file) o
+      else if format == "wav" then verdictWith (wavProp file truth o) (wavModel file) o
       else if format == "bzip2" then bzip2Prop truth o
       else "BADOP format"
   | "cor" :: format :: fhex :: cs =>
